@@ -454,3 +454,91 @@ def run_link_tie(res, rng, quick):
         res.violation('correspondence', f'tie:link-C04: {errs[:1]}',
                       {'theorem_or_correspondence': 'tie:link-C04'},
                       found_input=False)
+
+
+# ---- macrobody card texts (coq/C02/LinkC03.v): C02's scanner + C03's body_t4 ----
+
+def gen_body_text(rng):
+    import c03_gen as G
+    mn, prm = rng.choice([
+        lambda: ('box', G.gen_box(rng)), lambda: ('rpp', G.gen_rpp(rng)),
+        lambda: ('sph', G.gen_sph(rng)), lambda: ('rcc', G.gen_rcc(rng)),
+        lambda: ('rhp', G.gen_rhp(rng)), lambda: ('hex', G.gen_rhp(rng, False)),
+        lambda: ('rec', G.gen_rec(rng)), lambda: ('trc', G.gen_trc(rng)),
+        lambda: ('ell', G.gen_ell(rng)), lambda: ('wed', G.gen_wed(rng)),
+        lambda: ('arb', G.gen_arb(rng))])()
+    prm = [float(v) for v in prm]
+    if mn == 'arb':
+        toks = [spell(rng, v) for v in prm[:24]] + ['%d' % int(v) for v in prm[24:]]
+    else:
+        toks = [spell(rng, v) for v in prm]
+    if rng.random() < 0.06:
+        toks = toks[:-1] if rng.random() < 0.5 else toks + ['1']
+    name = str(rng.randint(1, 9999))
+    text = (rng.choice(['', ' ']) + rng.choice(['', '*', '+']) + name
+            + rng.choice(WS) + mixed_case(rng, mn) + rng.choice(WS)
+            + rng.choice(WS).join(toks))
+    return text
+
+
+def impl_body_text(text):
+    '''get_surfaces + to_surfaces_mcnp (macrobody branch) + convert_mcnp_surface.'''
+    from t4_geom_convert.Kernel.FileHandlers.Parser.ParseMCNPSurface import \
+        to_surfaces_mcnp
+    from t4_geom_convert.Kernel.Surface.ConversionSurfaceMCNPToT4 import \
+        convert_mcnp_surface
+    parsed = impl_parse(impl_content([text]))
+    if parsed[0] == 'err':
+        return None
+    _, bc, name, tr, typ, params = parsed
+    try:
+        with contextlib.redirect_stdout(io.StringIO()):
+            surfs = to_surfaces_mcnp(name, (bc, tr, typ, params), {})
+            coll = convert_mcnp_surface(name, surfs)
+    except Exception:                   # pylint: disable=broad-except
+        return None
+    out = []
+    for sub_surf, side in coll.surfs:
+        if sub_surf.transform is not None:
+            return 'transform'
+        out.append((sub_surf.type_surface.name,
+                    [float(v) for v in sub_surf.param_surface], int(side)))
+    return out
+
+
+def run_body_tie(res, rng, quick):
+    from props import c02
+    header = c02.HEADER.replace('C02.Exec.', 'C02.Text C02.LinkC03 C02.Exec.') \
+        + 'From Coq Require Import String.\n'
+    cases, meta = [], []
+    for _ in range(120 if quick else 1500):
+        text = gen_body_text(rng)
+        content = impl_content([text])
+        out = impl_body_text(text)
+        res.seen(('bodytext', text), nontrivial=True)
+        res.count('bodytext:' + ('raised' if out is None else 'ok'))
+        if out == 'transform' or (out and any(
+                v != v or abs(v) == float('inf') for _, ps, _ in out for v in ps)):
+            continue
+        exp = copt(out, lambda o: clist(
+            cpair(ty, c02.coq_floats(ps), cz(sd)) for ty, ps, sd in o))
+        cases.append(cpair(cstr_any(content), exp))
+        meta.append((text, out))
+    bad, errs = common.run_case_files('c02_bodytext', header, 'bodytext_case',
+                                      'check_bodytext', cases)
+    res.obligation(f'tie:link-C03 ({len(cases)} macrobody card texts: C02 '
+                   'scanner + C03 body_t4 = get_surfaces + to_surfaces_mcnp + '
+                   'convert_mcnp_surface)', not bad and not errs,
+                   f'{len(bad)} disagreements {errs[:1]}')
+    for idx in bad[:6]:
+        res.violation('correspondence',
+                      f'tie:link-C03: linked model and implementation disagree '
+                      f'on {meta[idx]!r}'[:600],
+                      {'input': {'text': meta[idx][0]},
+                       'observed': str(meta[idx][1]),
+                       'theorem_or_correspondence': 'tie:link-C03'},
+                      found_input=False)
+    if errs and not bad:
+        res.violation('correspondence', f'tie:link-C03: {errs[:1]}',
+                      {'theorem_or_correspondence': 'tie:link-C03'},
+                      found_input=False)
